@@ -906,6 +906,12 @@ func c09PairSpecs() []c09Spec {
 var c09PairArg = map[byte]string{'d': "num:-42", 'i': "num:42", 'o': "num:255", 'u': "num:1000", 'x': "num:255", 'X': "num:-1", 'c': "num:65", 's': `str:"12abc"`,
 	'e': "num:3.14159265", 'E': "num:1e-05", 'f': "num:123456.789", 'g': "num:123456.789", 'G': "num:3.14159265"}
 
+// c09PairArg2: the second conversion of a pair takes a different value (of a
+// different encoded length for %c and %s), so that two conversions of the same
+// kind cannot pass by sharing one converted argument.
+var c09PairArg2 = map[byte]string{'d': "num:42", 'i': "num:-42", 'o': "num:1000", 'u': "num:255", 'x': "num:1000", 'X': "num:255", 'c': "num:9786", 's': `str:"aé"`,
+	'e': "num:1e-05", 'E': "num:3.14159265", 'f': "num:0.5", 'g': "num:3.14159265", 'G': "num:123456.789"}
+
 // (the float arguments need more than 6 significant digits, so that a default precision
 // wrongly carried over from a neighbouring conversion in the same format shows)
 
@@ -913,13 +919,13 @@ var c09PairArg = map[byte]string{'d': "num:-42", 'i': "num:42", 'o': "num:255", 
 // "<%" + sprintf(s1, args1...) + "|" + sprintf(s2, args2...) + "%>".
 func c09CheckPairs(c *core.Ctx, r *c09Runner, first c09Spec, chars bool) {
 	specs := c09PairSpecs()
-	single := func(sp c09Spec) string {
-		a := c09ArgByLabel(c09PairArg[sp.conv()])
+	single := func(sp c09Spec, args map[byte]string) string {
+		a := c09ArgByLabel(args[sp.conv()])
 		return r.sprintfBatch(c, []c09Item{{fmt: sp.awkFmt(), stars: sp.stars(), arg: a}}, chars)[0].out
 	}
 	pairProg := func(s1, s2 c09Spec) (string, awk.Result) {
-		lit := func(sp c09Spec) string {
-			a := c09ArgByLabel(c09PairArg[sp.conv()])
+		lit := func(sp c09Spec, args map[byte]string) string {
+			a := c09ArgByLabel(args[sp.conv()])
 			var parts []string
 			for _, st := range sp.stars() {
 				parts = append(parts, strconv.Itoa(st))
@@ -932,16 +938,16 @@ func c09CheckPairs(c *core.Ctx, r *c09Runner, first c09Spec, chars bool) {
 			return strings.Join(parts, ", ")
 		}
 		f := "<%%" + s1.awkFmt() + "|" + s2.awkFmt() + "%%>"
-		src := fmt.Sprintf(`BEGIN { printf "%%s", sprintf(%s, %s, %s) }`, strconv.Quote(f), lit(s1), lit(s2))
+		src := fmt.Sprintf(`BEGIN { printf "%%s", sprintf(%s, %s, %s) }`, strconv.Quote(f), lit(s1, c09PairArg), lit(s2, c09PairArg2))
 		p, err, pn := awk.Parse(src, nil)
 		if err != nil || pn != "" {
 			panic(fmt.Sprintf("C09 pair program: %v %s: %s", err, pn, src))
 		}
 		return f, awk.Exec(p, &interp.Config{Chars: chars})
 	}
-	g1 := single(first)
+	g1 := single(first, c09PairArg)
 	for _, s2 := range specs {
-		g2 := single(s2)
+		g2 := single(s2, c09PairArg2)
 		f, res := pairProg(first, s2)
 		c.Eval(1)
 		c.Add("transitions", 1)
